@@ -7,6 +7,7 @@ CONSTANTS
   CutPoints = {1, 3}
   MaxOps = 6
   Splits = FALSE
+  S0Kinds = {"given", "init"}
   HandOvers = {}
   Emit = TRUE
 INVARIANTS Causal PureLabels SegmentLabels
